@@ -447,6 +447,16 @@ func (context *svgContext) resolveUse(node *cascadedNode, defs definitions) (*sv
 		if err != nil {
 			return nil, err
 		}
+		// the content of the remote document is processed in this context :
+		// a <use> found in it (resolved against our base url) may lead back to it
+		if context.inUseIDs.Has(url) {
+			return nil, fmt.Errorf("invalid recursive <use>")
+		}
+		context.inUseIDs.Add(url)
+		defer func() {
+			delete(context.inUseIDs, url)
+		}()
+
 		content, err := context.urlFetcher(url)
 		if err != nil {
 			logger.WarningLogger.Printf("SVG: fetching <use> content: %s", err)
